@@ -453,4 +453,52 @@ theorem nib_facts : ∀ b : Bool, ∀ t, t < 16 → ∀ c, c < 4 →
       (((t &&& (15 ^^^ 8) ||| (if b = true then 8 else 0)) &&& 4) != 0) = ((t &&& 4) != 0)) := by
   intro b; cases b <;> decide
 
+/-! ### header fields, stores, collector writes -/
+
+theorem wordBytes_length (n w : Nat) : (wordBytes n w).length = n := by
+  induction n generalizing w with
+  | zero => rfl
+  | succ n ih => simp [wordBytes, ih]
+
+theorem bytesWord_wordBytes (n w : Nat) (h : w < 256 ^ n) : bytesWord (wordBytes n w) = w := by
+  induction n generalizing w with
+  | zero =>
+    have : w = 0 := by simpa using h
+    subst this; rfl
+  | succ n ih =>
+    have hd : w / 256 < 256 ^ n := by
+      apply Nat.div_lt_of_lt_mul
+      rw [Nat.pow_succ, Nat.mul_comm] at h
+      exact h
+    simp only [wordBytes, bytesWord, ih _ hd]
+    have := Nat.div_add_mod w 256
+    omega
+
+theorem writeCells_outside (m : Nat → Nat) (lo : Nat) (vals : List Nat) (a : Nat)
+    (h : a < lo ∨ lo + vals.length ≤ a) : writeCells m lo vals a = m a := by
+  unfold writeCells
+  rw [if_neg (by omega)]
+
+theorem Store.run_outside (m : Nat → Nat) (s : Store) (a : Nat)
+    (h : a < s.lo ∨ s.lo + s.bytes.length ≤ a) : s.run m a = m a :=
+  writeCells_outside m s.lo s.bytes a h
+
+theorem foldl_run_outside (ss : List Store) (m : Nat → Nat) (a : Nat)
+    (h : ∀ s ∈ ss, a < s.lo ∨ s.lo + s.bytes.length ≤ a) : ss.foldl Store.run m a = m a := by
+  induction ss generalizing m with
+  | nil => rfl
+  | cons s ss ih =>
+    rw [List.foldl_cons, ih _ (fun s' hs' => h s' (List.mem_cons_of_mem _ hs'))]
+    exact Store.run_outside m s a (h s List.mem_cons_self)
+
+/-- A header mutator stores one word inside the `GcHeader` struct at `hp`. -/
+theorem HeaderWrite.store_in_header {f : HeaderFields} {hdr : Layout} (hf : f.Fits hdr)
+    (bits hp : Nat) (m : Nat → Nat) (w : HeaderWrite) :
+    hp ≤ (w.store f bits hp m).lo ∧
+      (w.store f bits hp m).lo + (w.store f bits hp m).bytes.length ≤ hp + hdr.size ∧
+      (w.store f bits hp m).bytes.length = f.word ∧
+      ((w.store f bits hp m).lo = hp + f.vtableOff ∨ (w.store f bits hp m).lo = hp + f.nextOff) := by
+  obtain ⟨h1, h2⟩ := hf
+  cases w <;> simp [HeaderWrite.store, wordBytes_length] <;> omega
+
 end GcArena.Layout
